@@ -2009,3 +2009,57 @@ func c04fieldListsChecked(c *core.Check) {
 	}
 	c.Min("field-lists-checked-for-duplicates", 3)
 }
+
+// ---------------------------------------------------------------------------------------------------------------------
+// C04: an invalid command line writes no generated file. With several -g languages the files of an earlier language are
+// on disk before a later language is looked at, so an unknown language must be refused before the generating loop. Rule:
+// in InvokeThriftgo the loop that calls Persist is preceded (on every path: same statement list) by a loop over the same
+// language list that looks each language up and returns an error.
+func c04languagesValidatedFirst(c *core.Check) {
+	fd := c.Prog.FuncDecl("sdk", "InvokeThriftgo")
+	key := "sdk.InvokeThriftgo/languages"
+	if fd == nil {
+		c.Unknown("anchor", key, "", "missing")
+		return
+	}
+	info := c.Prog.Pkg("sdk").TypesInfo
+	var gen *ast.RangeStmt
+	genIdx := -1
+	for i, s := range fd.Body.List {
+		if rs, ok := s.(*ast.RangeStmt); ok {
+			for _, call := range rules.Calls(rs.Body, false) {
+				if fn := rules.Callee(info, call); fn != nil && fn.Name() == "Persist" {
+					gen, genIdx = rs, i
+				}
+			}
+		}
+	}
+	if gen == nil {
+		c.Unknown("languages-validated-before-output", key, c.Prog.Rel(fd.Pos()), "no top-level loop that persists the generated files")
+		return
+	}
+	validated := false
+	for _, s := range fd.Body.List[:genIdx] {
+		rs, ok := s.(*ast.RangeStmt)
+		if !ok || rules.ExprString(rs.X) != rules.ExprString(gen.X) {
+			continue
+		}
+		looks, fails := false, false
+		for _, call := range rules.Calls(rs.Body, false) {
+			if fn := rules.Callee(info, call); fn != nil && fn.Name() == "GetBackend" {
+				looks = true
+			}
+		}
+		ast.Inspect(rs.Body, func(n ast.Node) bool {
+			if r, ok := n.(*ast.ReturnStmt); ok && len(r.Results) == 1 && !rules.IsNil(info, r.Results[0]) {
+				fails = true
+			}
+			return true
+		})
+		if looks && fails {
+			validated = true
+		}
+	}
+	c.Decide(validated, "languages-validated-before-output", key, c.Prog.Rel(gen.Pos()), "every language of "+rules.ExprString(gen.X)+" is looked up, and an unknown one refused, before the first Persist",
+		"the languages are only looked up while generating: `-g go -g nosuch` writes the go files and then exits non-zero, although an invalid command line must write nothing")
+}
